@@ -16,7 +16,7 @@ import (
 // C06 — the attester accepts a rate-limited request only if it is authentic.
 type c06 struct{ base }
 
-func init() { core.Register(c06{base{"C06", "fault_enumeration", 48, 1200}}) }
+func init() { core.Register(c06{base{"C06", "fault_enumeration", 150, 3000}}) }
 
 func (c06) Describe() core.Description {
 	return core.Description{
